@@ -93,6 +93,13 @@ theorem complete_sidefiles_lag_after_rename :
     run (completeProg { parts := [.present [1] true], hasMeta := true, metaFails := true }) (initSt (some [0]) .old .old) =
       (.internalError, { initSt (some [0]) .old .old with dest := some [1], acc := [1], dirs := true }) := by decide
 
+/-- cf67827 (the C19 side of F-fs-29 / F-fs-37): a completed upload without metadata over an object that has metadata and a
+    checksum record leaves neither — the metadata file is removed, the checksum record is a new (empty) one -/
+theorem complete_replaces_sidefiles :
+    run (completeProg { parts := [.present [1] true] }) (initSt (some [0]) .old .old) =
+      (.ok, { initSt (some [0]) .old .old with dest := some [1], acc := [1], dirs := true, mdata := .absent, info := .new,
+                                               uploadRec := false, partsGone := 1 }) := by decide
+
 /-- before 3229285 the comparison came after `done()`: in the model, the program with `check` after `rename`
     (`error-after-rename:checksum`, F-fswrite-1, fixed) -/
 theorem old_order_replaced_before_baddigest :
